@@ -123,7 +123,8 @@ class Case:
         return any(o.split()[0] in ("block", "blockb", "blocks", "blocksb", "data", "apply", "applyb", "enc", "dec",
                                     "encb", "decb", "oneshot", "oneshotb", "padenc", "paddec", "ksblock", "ksblocks",
                                     "applyblocks", "applyblocksb", "seek", "newslice", "debug", "E", "D", "backend", "applyblock", "applyblockb",
-                                    "ksdirect", "encio", "decio", "enciob", "deciob") for o in self.ops)
+                                    "ksdirect", "encio", "decio", "enciob", "deciob", "blockio", "blockiob", "blocksio", "blocksiob",
+                                    "oneshotio", "oneshotiob", "enccf", "deccf", "padencs", "padencb", "paddecs", "paddecb") for o in self.ops)
 
 
 class ExecError(Exception):
